@@ -657,27 +657,35 @@ UnitsMap defineUnitsMap(const UnitsPtr &units)
     return unitsMap;
 }
 
-bool Units::requiresImports() const
+bool unitsRequireImports(const UnitsConstPtr &units, std::vector<UnitsConstPtr> &history)
 {
     // Function to check child unit dependencies for imports.
-    if (isImport()) {
+    if (units->isImport()) {
         return true;
     }
 
-    auto model = owningModel(shared_from_this());
+    auto model = owningModel(units);
     if (model != nullptr) {
-        for (size_t u = 0; u < unitCount(); ++u) {
-            const std::string ref = unitAttributeReference(u);
+        history.push_back(units);
+        for (size_t u = 0; u < units->unitCount(); ++u) {
+            const std::string ref = units->unitAttributeReference(u);
             auto child = model->units(ref);
-            if ((child == nullptr) || (this == child.get())) {
+            if ((child == nullptr) || (std::find(history.begin(), history.end(), child) != history.end())) {
                 continue;
             }
-            if (child->requiresImports()) {
+            if (unitsRequireImports(child, history)) {
                 return true;
             }
         }
+        history.pop_back();
     }
     return false;
+}
+
+bool Units::requiresImports() const
+{
+    std::vector<UnitsConstPtr> history;
+    return unitsRequireImports(shared_from_this(), history);
 }
 
 bool Units::compatible(const UnitsPtr &units1, const UnitsPtr &units2)
